@@ -2,9 +2,9 @@ package eng
 
 import (
 	"fmt"
-	"os"
 	"go/token"
 	"go/types"
+	"os"
 	"strings"
 
 	"golang.org/x/tools/go/ssa"
@@ -67,6 +67,30 @@ func (x *Exec) invName(li *loopInfo, i int, c *Clause) string {
 func (x *Exec) goTo(st *State, from, to *ssa.BasicBlock) {
 	fr := st.fr
 	li := x.loopsOf(fr.fn)[to]
+	if li != nil && fr.parent == nil && fr.fn == x.fn && x.fc != nil && x.fc.Opts["unroll"] != "" && li.lc == nil {
+		// constant-trip loop (e.g. a range over a composite literal): unrolled with an unwinding
+		// assertion instead of being cut at an invariant - complete when the assertion passes
+		var bound int
+		fmt.Sscan(x.fc.Opts["unroll"], &bound)
+		key := fmt.Sprintf("$unroll%d", li.ordinal)
+		n := 0
+		if c, ok := st.ghost[key]; ok {
+			fmt.Sscan(c.S, &n)
+		}
+		if li.body[from] {
+			n++
+		} else {
+			n = 0
+		}
+		if n > bound {
+			o := x.oblig(fmt.Sprintf("loop%d/unwinding[%d iterations suffice]", li.ordinal, bound), "unwind", nil, to.Instrs[0].Pos())
+			x.Assert(st, o, False)
+			st.dead = true
+			return
+		}
+		st.ghost[key] = mk(SInt, fmt.Sprint(n))
+		li = nil
+	}
 	if li != nil {
 		top := fr.parent == nil && fr.fn == x.fn
 		if top {
